@@ -163,6 +163,6 @@ pub fn def() -> PropDef {
         rule: "2..5 subscriptions with distinct generated priorities (creation order independent of priority order; in 40% of the cases the priorities are replaced through ModifySubscription after the first tick), each with one item and a pending change, all publishing intervals elapsing in the same timer tick, k = 1..6 publish requests queued beforehand, optionally followed by one publish request at a time for the subscriptions left late; oracle: the subscriptions answered by that tick are the k highest-priority ones, in descending priority, and each later request is answered by the highest-priority late subscription; non-trivial = fewer requests than ready subscriptions and a priority order that is neither ascending nor descending subscription-id order; distinct = distinct case",
         assumptions: &["priorities are distinct, so no tie-breaking rule is assumed", "when there are more requests than subscriptions only the first |subscriptions| responses are compared"],
         abort_possible: false,
-        parts: |tier| vec![part("priority", tier.pick(1000, 20000), case(), run)],
+        parts: |tier| vec![part("priority", tier.pick(1000, 100_000), case(), run)],
     }
 }
